@@ -87,6 +87,24 @@ int main(int argc, char **argv) {
         "{\"n\":5,\"edges\":[[0,1,0.6],[1,3,0.2],[3,2,0.5],[4,1,0.1],[4,2,0.8],[3,0,0.9],[0,2,0.9],[1,2,0.9]]}",
         "{\"n\":7,\"edges\":[[1,6,0.9],[1,3,0.7],[0,1,0.6],[1,5,0.8],[6,2,0.3],[5,4,0.5],[1,2,0.1],[5,6,0.3],[2,4,0.9],[0,3,0.8],[6,0,0.5],[5,3,0.8]]}",
         "{\"n\":8,\"edges\":[[4,5,0.2],[3,4,0.1],[0,4,0.9],[4,7,0.5],[2,3,0.9],[1,4,0.3],[0,5,0.1],[6,7,0.9],[3,6,0.6],[0,1,0.9],[1,5,0.2],[4,6,0.5],[5,7,0.9],[0,2,0.6],[1,2,0.9],[3,5,0.8],[1,3,0.4],[0,3,0.4],[0,6,0.9],[1,7,0.1],[1,6,0.6]]}"};
+    // rounding-tie instances the unchanged tree HANDLES (two routes whose float lengths tie while the real sums differ; found with seed S61):
+    // not part of any listed finding, so a failure here is reported even for the isometric variants
+    if (shard == 0) {
+        std::vector<TGraph> ties;
+        { TGraph g; g.n = 5; g.edges = {{0, 1}, {0, 3}, {0, 4}, {1, 3}, {2, 3}, {2, 4}}; g.w = {0.1, 0.6, 0.3, 0.1, 0.4, 0.1}; ties.push_back(g); }
+        { const double b0 = 1e-3, s3 = 3e-10; TGraph g; g.n = 6; g.edges = {{0, 1}, {0, 2}, {0, 3}, {0, 5}, {1, 3}, {1, 4}, {2, 4}, {3, 4}, {4, 5}};
+          g.w = {b0 + 2 * s3, b0 + 3 * s3, b0 + 2 * s3, b0 + 4 * s3, b0 + 4 * s3, b0 + 4 * s3, b0 + 5 * s3, b0 + 6 * s3, b0 + 2 * s3}; ties.push_back(g); }
+        for (auto &g : ties) {
+            g.tag = "fixed-rounding-tie-instance";
+            I128 opt; bool ho = exact_opt(g, opt);
+            for (int v = 0; v < 6; v++) {
+                Verdict vd = check_one(g, v, ho, opt);
+                st.evaluations++; st.counts[VARIANTS[v]]++;
+                if (!vd.ok()) { st.violations++; std::string site = std::string(VARIANTS[v]) + "@inexact-weights[" + g.tag + "]";
+                    if (st.counts["viol_" + site + "_" + vd.kind]++ < 1) emit_violation(site, vd.kind, vd.detail, "{\"graph\":" + g.str() + ",\"algo\":\"" + VARIANTS[v] + "\"}"); }
+            }
+        }
+    }
     for (int i = -3; i < N; i++) {
         if (i < 0) {
             if (shard != 0) continue;
@@ -95,7 +113,7 @@ int main(int argc, char **argv) {
             for (int v = 0; v < 6; v++) {
                 Verdict vd = check_one(g, v, ho, opt);
                 st.evaluations++; st.counts[VARIANTS[v]]++;
-                if (!vd.ok()) { st.violations++; std::string site = std::string(VARIANTS[v]) + "@inexact-weights";
+                if (!vd.ok()) { st.violations++; std::string site = std::string(VARIANTS[v]) + "@inexact-weights[fixed-D7-instance]";
                     if (st.counts["viol_" + site + "_" + vd.kind]++ < 1) emit_violation(site, vd.kind, vd.detail, "{\"graph\":" + g.str() + ",\"algo\":\"" + VARIANTS[v] + "\"}"); }
             }
             st.distinct.insert(g.key());
@@ -115,12 +133,14 @@ int main(int argc, char **argv) {
             else if (kind == 3) w = (1 + r.below(9)) / 10.0;                   // few distinct decimal values: many near-ties
             else w = (1 + r.below(4)) * 1e-3 + r.below(10) * 3e-10;           // small weights whose sums differ by less than 1e-9 ABSOLUTE yet by ~1e-7 relative
         }
-        g.tag = kind == 0 ? "uniform[1e-3,1e3]" : kind == 1 ? "k/10" : kind == 2 ? "k/100" : kind == 3 ? "k/10 small" : "k*1e-3+j*3e-10";
+        g.tag = kind == 0 ? "uniform" : kind == 1 ? "k/10" : kind == 2 ? "k/100" : kind == 3 ? "k/10-small" : "k*1e-3+j*3e-10";
         I128 opt; bool ho = exact_opt(g, opt);
         for (int v = 0; v < 6; v++) {
             Verdict vd = check_one(g, v, ho, opt);
             st.evaluations++; st.counts[VARIANTS[v]]++;
-            if (!vd.ok()) { st.violations++; std::string site = std::string(VARIANTS[v]) + "@inexact-weights";
+            // the site names the weight family: a known finding is listed per (entry point, kind, family), so the same symptom on a
+            // family the unchanged tree handles is still reported
+            if (!vd.ok()) { st.violations++; std::string site = std::string(VARIANTS[v]) + "@inexact-weights[" + g.tag + "]";
                 if (st.counts["viol_" + site + "_" + vd.kind]++ < 1) emit_violation(site, vd.kind, vd.detail, "{\"graph\":" + g.str() + ",\"algo\":\"" + VARIANTS[v] + "\"}"); }
         }
         if (cyclomatic(g) >= 2) st.distinct.insert(g.key());
